@@ -316,7 +316,7 @@ var sizes = []int{0, 1, 2, 255, 256, 65531}
 
 func drawSet(t *rapid.T, big bool) []ref.Triplet {
 	n := rapid.OneOf(rapid.IntRange(0, 4), rapid.IntRange(0, 32)).Draw(t, "n")
-	tags := rapid.SliceOfNDistinct(rapid.OneOf(rapid.Uint16(), rapid.Uint16Range(0, 0x20)), n, n, rapid.ID[uint16]).Draw(t, "tags")
+	tags := rapid.SliceOfNDistinct(gen.TagGen, n, n, rapid.ID[uint16]).Draw(t, "tags")
 	ts := make([]ref.Triplet, n)
 	budget := 2
 	for i, tag := range tags {
